@@ -29,9 +29,13 @@ package utils
 // captured request)
 //@ func hasUnsignedAmzHeader
 //@   pure
+// the signature is recomputed by a signer made for this check: the signer keeps derived keys (per access key and day, not
+// per secret), and one shared between requests would go on accepting a secret that has been changed
 //@ func CheckValidSignature
+//@   at-call v4.Signer.SignHTTP {C02,C17} [the-signer-is-made-for-this-check] requires called("v4.NewSigner")
 //@   at-return {C02} [no-amz-header-outside-the-signature] when ret0 == nil :: ensures !hasUnsignedAmzHeader(ctx, signedHdrs)
 //@ func CheckPresignedSignature
+//@   at-call v4.Signer.PresignHTTP {C02,C17} [the-signer-is-made-for-this-check] requires called("v4.NewSigner") && $0 == result("v4.NewSigner", 0)
 //@   at-return {C02} [no-amz-header-outside-the-signature] when ret0 == nil :: ensures !hasUnsignedAmzHeader(ctx, signedHdrs)
 // C02: a presigned url is accepted only inside its window: signed at most `exp` seconds ago, at most a week, and not
 // dated in the future beyond the clock skew
@@ -245,8 +249,15 @@ package utils
 //@   frame none
 //@   ensures {C12} [an-error] ret0 != nil
 //@ func NewChunkReader
+//@   ensures {C02,C12} [a-decoder-or-an-error] ret1 == nil ==> ret0 != nil
 // a chunk encoding that is not implemented is refused: no reader is returned that would hand on the encoded bytes
 //@   ensures {C12} [an-unimplemented-chunk-encoding-is-refused] (ctx.Get("X-Amz-Content-Sha256") == "STREAMING-AWS4-ECDSA-P256-SHA256-PAYLOAD" \
 //@        || ctx.Get("X-Amz-Content-Sha256") == "STREAMING-AWS4-ECDSA-P256-SHA256-PAYLOAD-TRAILER") ==> ret1 != nil
 //@   at-return {C12} [the-decoder-is-returned-unwrapped] when err == nil :: ensures (called("utils.NewUnsignedChunkReader") && ret0 == iface(result("utils.NewUnsignedChunkReader", 0))) \
 //@        || (called("utils.NewSignedChunkReader") && ret0 == result("utils.NewSignedChunkReader", 0))
+
+//@ func NewSignedChunkReader
+//@   ensures {C02,C12} [a-decoder-or-an-error] ret1 == nil ==> ret0 != nil
+
+//@ func NewUnsignedChunkReader
+//@   ensures {C02,C12} [a-decoder-or-an-error] ret1 == nil ==> ret0 != nil
